@@ -217,7 +217,8 @@ def edge_match(rep):
     rets = returns_of(fi.node)
     rep.ob("O12.1", "R13", fi, bool(rets) and is_const(rets[-1].value, True) and not guards_of(pm, rets[-1], fi.node), rets[-1] if rets else "return", "acceptance only after all attributes agreed")
     cmp_ = [n for n in walk_local(fi.node) if isinstance(n, ast.Compare) and isinstance(n.ops[0], ast.NotEq)]
-    ok = hv is not None and pv is not None and len(cmp_) == 2 and sorted(_flat(c) for c in cmp_) in (sorted([f"float({hv})!=float({pv})", f"{hv}!={pv}"]), sorted([f"float({pv})!=float({hv})", f"{pv}!={hv}"]))
+    ok = hv is not None and pv is not None and len(cmp_) == 2 and any(pmatch(f"float({hv}) != float({pv})", c) is not None for c in cmp_) \
+        and any(pmatch(f"{hv} != {pv}", c) is not None for c in cmp_)
     rep.ob("O12.1", "R13", fi, ok, [norm(c) for c in cmp_], "values are compared for (numeric or plain) equality between the host bond and the pattern bond")
     mt = rep.f(MT, "MCSMatcher._edge_match")
     rets = returns_of(mt.node)
